@@ -355,7 +355,10 @@ fn judge_box_map(run: &Run, c: &Case, a: &Asset, fails: &mut Vec<Fail>) {
             let (s, e) = (*s, *e);
             let unit = unit_of(s);
             let all_ff = b[s as usize..e as usize].iter().all(|x| *x == 0xFF);
-            let sig = if unit == "trailing" || (e == len && s >= last_end) {
+            // "trailing" is decided by the walker where it can parse the file (so that a missing entry for the
+            // last real unit is not mistaken for trailing data), geometrically otherwise
+            let is_trailing = if units.is_some() { unit == "trailing" } else { e == len && s >= last_end };
+            let sig = if is_trailing {
                 format!("C12:boxmap-trailing-bytes-uncovered:{kind}")
             } else if kind == "jpeg" && all_ff {
                 format!("C12:boxmap-gap-uncovered:{kind}:fill-bytes")
